@@ -52,6 +52,7 @@ enum resp {
 	RS_WRONGVER_MID, /* correct answer but one payload PDU carries another version */
 	RS_EOD_OTHER_FMT, /* End of Data in the other version's format */
 	RS_HIGHER_ANSWER, /* answer carries version 2 */
+	RS_HIGHER_CR_ONLY, /* a Cache Response carrying version 2, then a complete answer in version 0 on the same connection */
 	RS__N
 };
 
@@ -61,6 +62,7 @@ static const char *RESP_NAME[RS__N] = {
 	"cut-then-error", "duplicate-announcement", "withdraw-unknown", "bad-length-pdu", "cache-restart-new-session",
 	"err-unsupported-version(lower)", "err-unsupported-version(same)", "err-unsupported-version(higher)", "err-unsupported-version(v1)",
 	"answer-in-version-0", "one-pdu-with-other-version", "eod-in-other-format", "answer-in-version-2",
+	"cache-response-in-version-2-then-answer-in-version-0",
 };
 
 static int MENU[RS__N];
@@ -427,6 +429,9 @@ static void respond(int kind, const struct rpdu *q)
 	uint16_t est_session = MON.have ? MON.sess : CACHE.session;
 	uint16_t other_session = est_session ^ 0x5555;
 
+	/* once the client is at version 0 the version-0 part of this answer is legitimate: then it is the plain version-0 answer */
+	if (kind == RS_HIGHER_CR_ONLY && MON.v == 0)
+		kind = RS_V0_ANSWER;
 	memset(&LAST, 0, sizeof(LAST));
 	LAST.kind = kind;
 	LAST.ver = ver;
@@ -594,6 +599,17 @@ static void respond(int kind, const struct rpdu *q)
 		LAST.valid = false;
 		LAST.has_eod = false;
 		break;
+	case RS_HIGHER_CR_ONLY:
+		/*
+		 * the first PDU is refused; what follows is NOT the first PDU of the connection any more, so its lower
+		 * version must not be taken over (rule (i) is about the first PDU only) and none of it may be applied
+		 */
+		pdu_cache_response(&b, 2, CACHE.session);
+		cache_answer(&CACHE, &b, 0, is_reset, q->f16, q->sn, &eod_serial, &from);
+		LAST.ver = 2;
+		LAST.valid = false;
+		LAST.has_eod = false;
+		break;
 	}
 	LAST.nbytes = b.len;
 	if (b.len) {
@@ -723,7 +739,7 @@ static void check_query(const struct rpdu *p)
 		MON.refused_pending = false;
 	}
 	if (is_prop("C13") && LAST.kind >= 0 && !LAST.valid && LAST.nbytes &&
-	    (LAST.kind == RS_WRONGVER_MID || LAST.kind == RS_HIGHER_ANSWER || LAST.kind == RS_EOD_OTHER_FMT) &&
+	    (LAST.kind == RS_WRONGVER_MID || LAST.kind == RS_HIGHER_ANSWER || LAST.kind == RS_HIGHER_CR_ONLY || LAST.kind == RS_EOD_OTHER_FMT) &&
 	    (mask != MON.mask_before_resp) && mask != 0) {
 		snprintf(key, sizeof(key), "refused-content-applied|%s", RESP_NAME[LAST.kind]);
 		snprintf(what, sizeof(what), "content of a refused response (%s) was applied: records %#x, before the response %#x",
@@ -1084,6 +1100,7 @@ static void setup_menus(void)
 		menu_add(RS_WRONGVER_MID);
 		menu_add(RS_EOD_OTHER_FMT);
 		menu_add(RS_HIGHER_ANSWER);
+		menu_add(RS_HIGHER_CR_ONLY);
 		menu_add(RS_TIMEOUT);
 	} else if (is_prop("C08") || is_prop("C15R")) {
 		menu_add(RS_OK_NEW);
